@@ -5,6 +5,7 @@ import Proofs.Emit
 import Proofs.Parsers
 import Proofs.Metadata
 import Props.C08
+import Proofs.ParserMulti
 import Facts.Generated
 namespace C10
 open Esdt
@@ -169,10 +170,59 @@ theorem parser_matches_nft_delivery (envS envD : Env) (cS cD : Call) (ctxS ctxS'
         nftStoredForm { t with value := some ((beNat qb : Int) + cv) } :=
   C08.cross_shard_hop envS envD cS cD ctxS ctxS' ctxD ctxD' outS outD hself hpres hx hS hne hdeliver hD hok
 
--- PARTIAL: the item-wise statement for MultiESDTNFTTransfer (the parser's loop `parseMultiLoop` and the functions' loops read
--- the same argument positions idx, idx+1, idx+2 with the same decodings — visible in the two definitions, not stated as a
--- theorem) and "the destination shard's function of the same name accepts the continuation" (a liveness-style statement
--- about a successful result) are decided by the C10 oracle (real parser run on every accepted transfer call and compared
--- with the ledger diff; every emitted message delivered) and the correspondence check.
+/-- FULL (MultiESDTNFTTransfer, what the destination contract is told = what the ledger moved): a successful sender-side
+    multi transfer towards another shard, on a well-formed shard state (`SInv`), emits ONE output transfer whose data
+      * parses with the call-arguments parser into the function's own name and the argument list
+        `count :: payload ++ attached call`,
+      * is accepted by the ESDT-transfer parser as seen on the destination shard (sender ≠ receiver), with receiver = the
+        destination and ONE REPORT PER TRANSFERRED TOKEN, in order (`reportOf`: identifier, the nonce of the entry's own
+        metadata — 0 for a fungible token —, and the transferred quantity, type by kind),
+      * and for EVERY storage key the quantities the parser reports for that key add up to exactly what the sender's
+        shard lost under that key (`parsedContrib … + balance after = balance before`) — repeated items, mixed kinds and
+        aliasing identifiers included.
+    With C01.multi_conservation_history (the same message, read by the destination loop, credits exactly that) a contract
+    is never told it received more or other tokens than the ledger moved. -/
+theorem parser_matches_multi_message (env : Env) (c : Call) (ctx ctx' : Ctx) (out : VMOutput) (hI : SInv ctx.accts)
+    (hpres : present env.nshards env.self c.caller = true)
+    (hdsys : ∀ d, c.args[0]? = some d → d ≠ systemAccountAddress)
+    (hphys : c.args.length < 2 ^ 63)
+    (h : multiTransferSender env c ctx = .ok (out, ctx'))
+    (dst : Bytes) (h0 : c.args[0]? = some dst) (hx : env.self ≠ shardOf env.nshards dst) :
+    ∃ tr args p, out.outAccts = [{ addr := dst, transfers := [tr] }] ∧
+      parseCall tr.data = .ok (fnMultiESDTNFTTransfer, args) ∧
+      parseESDTTransfers c.caller dst fnMultiESDTNFTTransfer args = .ok p ∧ p.rcv = dst ∧
+      ∀ k, balAt ctx'.accts k + parsedContrib p.transfers k = balAt ctx.accts k := by
+  obtain ⟨hne, toks, rest, tr, a1, h1, hlen, hn0, hn3, hout, hdata, hok, hlens, hb⟩ :=
+    (multiTransferSender_message env c ctx hI hpres hdsys).elim h dst h0 hx
+  have hlt : 3 * toks.length + 1 < two64 := by
+    rw [hlen]; unfold two64; omega
+  obtain ⟨p, hp, htr, hrcv⟩ := parse_emitted_multi c.caller dst toks rest (fun e => hne e.symm) (by rw [hlen]; exact hn0)
+    hlt hok hlens
+  refine ⟨tr, _, p, hout, by rw [hdata, parseCall_encodeCall _ _ (by decide) (by decide)], hp, hrcv, fun k => ?_⟩
+  rw [htr, parsedContrib_reports]
+  exact hb k
+
+/-- non-vacuity: the multi transfer of C01's example (2 of an SFT, 5 of a fungible token, 1 more of the SFT) — the emitted
+    data, parsed by the two parsers, reports exactly these three items -/
+example : (match multiTransferSender C01.nvEnv C01.nvMXfer { accts := C01.nvMA0 } with
+    | .ok (out, _) =>
+      (match out.outAccts with
+       | [oa] =>
+         (match oa.transfers with
+          | [tr] =>
+            (match parseCall tr.data with
+             | .ok (_, args) =>
+               (match parseESDTTransfers C01.nvAlice C01.nvBob fnMultiESDTNFTTransfer args with
+                | .ok p => p.transfers.map (fun t => (t.token, t.nonce, t.value))
+                | _ => [])
+             | _ => [])
+          | _ => [])
+       | _ => [])
+    | _ => []) = [(C01.nvNFT, 1, 2), (C01.nvFT, 0, 5), (C01.nvNFT, 1, 1)] := by decide +kernel
+
+-- PARTIAL: "the destination shard's function of the same name accepts the continuation" (a liveness-style statement about a
+-- successful result: refusals for frozen / paused / non-payable / other-hash destinations are legitimate) is decided by the
+-- C10 oracle (real parser run on every accepted transfer call and compared with the ledger diff; every emitted message
+-- delivered) and the correspondence check.
 
 end C10
